@@ -462,6 +462,10 @@ mod if_alloc {
             }
         }
 
+        #[cfg(kani)]
+        #[path = "/verif/kani/oneshot_broadcast_shared.rs"]
+        mod kani_verif_shared;
+
         // Export parking_lot based shared channels in std mode
         #[cfg(feature = "std")]
         mod if_std {
